@@ -386,11 +386,10 @@ func genPgCoder() {
 				part = append(part, st)
 			}
 		}
-		if len(part) == 0 {
-			fail("%s: PgProxy.handleQueryDataPacket: the resolution of the pending statement (sqlQuery := …) was not found", prel)
-		}
+		// when the handler no longer resolves the statement in place (no `sqlQuery := …`) the list is empty: the fact
+		// theorem of C04 then fails, and the other facts are still regenerated
 		lf.def("pgRowResolution", "List String", strList(linear(part)),
-			prel+": PgProxy.handleQueryDataPacket – the statements from `sqlQuery := …` up to the loop over the columns (log calls dropped)")
+			prel+": PgProxy.handleQueryDataPacket – the statements from `sqlQuery := …` up to the loop over the columns (log calls dropped); empty when the handler has no such part")
 	}
 	if fd := funcDecl("decryptor/postgresql/prepared_statements_sql_observer.go", "PreparedStatementsQuery", "onDeallocate"); fd != nil {
 		lf.def("sqlDeallocate", "List String", strList(linear(fd.Body.List)),
